@@ -3,6 +3,7 @@ CONSTANTS
   Nodes <- TraceNodes
   Endorsors <- TraceEndorsors
   Endorsement = 1
+  Cap = 101
   None = "none"
 INVARIANT T_ListIsInsertionOrder
 INVARIANT T_HeadTailConsistent
